@@ -856,7 +856,6 @@ fn run_lockstep_inner(cfg: &ScenCfg, out: &mut RunOut, rtu: bool) {
         simtokio::serial::add_line(RTU_PATH, simtokio::serial::OpenOutcome::Ok, true);
         let rig = start_rtu_client(baud, (retry_min, retry_max), decode, qcap);
         let mut m = ClientModel::new(Transport::Rtu, Retry::new(retry_min, retry_max), None);
-        m.impl_port_closes = Some(|| simtokio::serial::closes(RTU_PATH).len());
         m.observed_writes = Some(std::collections::VecDeque::new());
         m.t35 = t35_ns(baud);
         (rig, m, Link::Rtu { open: false, opens_seen: 0, closes_seen: 0 })
